@@ -198,8 +198,10 @@ def replay_loop(sc):
     return ok, detail
 
 
-def h_loop(ctx, il, n0, lm, bound, passes=MAX_PASSES):
-    eng, prod, reg, crit, df, notional = make_engine(ctx, il, n0, lm, bound)
+def h_loop(ctx, il, n0, lm, bound, passes=MAX_PASSES, offset=0):
+    """offset: the sample-size answers are offset + [0, bound] (levels of about 100 samples: the 1% rule is per level, a level short of 2
+    samples out of 100 is not complete even when the total over the levels is within 1%)"""
+    eng, prod, reg, crit, df, notional = make_engine(ctx, il, n0, lm, bound, offset=offset)
     crit.max_calls = passes
     eng.configuration.convergence_criteria.compute_mc_paths = _limited(crit)
     rmse = ctx.real("rmse")
@@ -223,7 +225,7 @@ def h_loop(ctx, il, n0, lm, bound, passes=MAX_PASSES):
     finally:
         logging.getLogger().removeHandler(hnd)
     info = {"il": il, "n0": n0, "lm": lm, "passes": len(crit.ns_calls)}
-    base_sc = _scenario(ctx, crit, il, n0, lm, bound)
+    base_sc = _scenario(ctx, crit, il, n0, lm, bound, offset=offset)
     rp = (replay_loop_facts, lambda m: dict(base_sc(m), what="return"))
     ctx.prove("C06.never_simulates_above_maximum_level", reg.max_level_simulated <= lm, info=info, replay=(replay_loop_facts, lambda m: dict(base_sc(m), what="above_max")))
     nlev = (len(stats.mc_statistics) if stats is not None else max(reg.samples) + 1 if reg.samples else il + 1)
@@ -235,7 +237,7 @@ def h_loop(ctx, il, n0, lm, bound, passes=MAX_PASSES):
     if proper and crit.ns_calls:
         n_last, ns_last = crit.ns_calls[-1]
         ok = all(max(0, int(ns_last[l]) - len(reg.samples.get(l, []))) <= 0.01 * len(reg.samples.get(l, [])) for l in range(n_last))
-        ctx.prove("C06.every_level_has_its_optimal_size_within_1pct_on_return", ok, info=info, replay=(replay_sizes, _scenario(ctx, crit, il, n0, lm, bound)))
+        ctx.prove("C06.every_level_has_its_optimal_size_within_1pct_on_return", ok, info=info, replay=(replay_sizes, _scenario(ctx, crit, il, n0, lm, bound, offset=offset)))
 
 
 def h_config(ctx, il, n0, lm, passes=3):
@@ -373,6 +375,7 @@ def harnesses(tier):
         [(0, 1, 1, 3, 4), (0, 2, 1, 3, 4), (1, 1, 1, 3, 4), (1, 1, 2, 2, 3), (1, 2, 2, 3, 2), (2, 1, 3, 1, 4), (0, 1, 2, 2, 3), (0, 3, 0, 4, 5)]
     for il, n0, lm, b, ps in cfgs:
         hs.append(Harness(f"loop.L{il}.N{n0}.M{lm}.B{b}.P{ps}", h_loop, {"il": il, "n0": n0, "lm": lm, "bound": b, "passes": ps}, max_paths=120000 if not q else 30000, batch=10))
+    hs.append(Harness("loop.large.L1.N100.M1.B2.P2", h_loop, {"il": 1, "n0": 100, "lm": 1, "bound": 2, "passes": 2, "offset": 100}, max_paths=30000, batch=4))
     for il, lm in ((1, 0), (2, 1)):
         hs.append(Harness(f"config.L{il}.M{lm}", h_config, {"il": il, "n0": 1, "lm": lm}, max_paths=4000, batch=10))
     hs.append(Harness("twin", h_twin, twin="must_fail"))
